@@ -16,8 +16,21 @@ PROP = dict(
           "than requested, or content > 16 KiB, or a line > 255 bytes, or an exact read sequence that mixes success and short "
           "delivery; directory listings with >= 2 names one of which is a dotfile/long/odd-byte name; trees with >= 3 entries that "
           "contain a directory symlink or depth >= 2; paths with >= 2 slashes; scoped_fd histories with >= 3 effective operations "
-          "including a move; Poll histories of >= 3 steps with a re-add or an effective remove. Distinct = distinct case encodings."),
-    assumptions=["no I/O errors other than short counts are injected (no EIO/EINTR)",
+          "including a move; Poll histories of >= 3 steps with a re-add or an effective remove. Distinct = distinct case encodings. "
+          "read_fault: the k-th read()/pread()/stream read callback fails with EINTR (or EIO) without consuming anything and the source "
+          "keeps delivering afterwards; applied to read_all(fd), read_all(FILE*), load_file, readx, preadx, read, freadx, fread, fgets "
+          "with the oracle 'throws, or returns exactly the bytes the source handed out' (no padding, nothing dropped, and a read-to-end "
+          "helper that returns normally has everything up to end of file; a retry after a throw that consumed nothing sees the same "
+          "bytes); every composition of every total <= 6 x the failing read at every call index is enumerated; non-trivial = a read "
+          "failed and the helper made >= 2 reads or also completed an operation. mixed_reads: several helpers one after the other on "
+          "one stream or descriptor (fgets / freadx / fread / fgetcx, then read_all, then more): every call returns exactly the "
+          "next bytes of the content, in particular read_all on a source that was already partly consumed through stdio returns the "
+          "whole remainder; fopen/fmemopen/cookie/fdopen-pipe streams, default/unbuffered/7-byte/256-byte stdio buffers, sizes around "
+          "256, 4096, 8192, 16384 enumerated; non-trivial = two different helpers took bytes, or read_all ran on a used source."),
+    assumptions=["I/O errors are injected only as a read that fails with EINTR or EIO and consumes nothing (subcheck read_fault); the other "
+                 "subchecks inject short counts only",
+                 "read_all(FILE*) after a failed stream read: only 'no padding, nothing dropped' is asserted; that it returns the "
+                 "delivered prefix without throwing is reported, not counted (see excluded)",
                  "text fed to fgets contains no NUL byte (::fgets cannot represent it)",
                  "the process runs as root on a filesystem that accepts every byte except '/' and NUL in names (ext4)",
                  "load_file under a short-read plan may throw (it must not return a truncated string)",
@@ -30,7 +43,8 @@ PROP = dict(
     level_text=("Fault enumeration: the short read is the injected fault. Every way of splitting a stream of <= 10 bytes into reads is "
                 "enumerated for each reader, block-boundary sizes and all line lengths 0..1100 are enumerated, larger contents and "
                 "kernel-produced short reads (real pipes) are sampled. It finds any reader that treats a short count as end of data "
-                "inside those scopes; I/O errors and signals are outside the fault model."),
+                "inside those scopes. A second fault, a read that fails with EINTR/EIO at the k-th call, is enumerated for every "
+                "composition of totals <= 6 and every k; real signals are not delivered."),
     level_note="Trusts glibc's fopencookie/fmemopen contract, the kernel's pipe semantics and /proc/self/fd.",
     engine="rapidcheck + exhaustive enumerators + ld --wrap interposition",
 )
